@@ -1066,6 +1066,85 @@ func c13Build(c *core.Ctx, tp, pp *packages.Package) {
 		})
 	}
 	// C13.flags
+	// flags rendered in one place for all node types: the function that dispatches to the builders (it calls their Build) reads
+	// the flag — directly or through an accessor method of the pipeline package that returns it — and is not made conditional
+	// on the node type, except for the types it excludes by a type assertion (their builders must read the flag themselves)
+	central := map[*types.Var]map[string]bool{} // flag -> excluded node type names
+	for _, f := range core.AllFuncs(tp) {
+		if f.Decl.Body == nil || f.Decl.Name.Name == "Build" {
+			continue
+		}
+		// does it (or a same-package function it returns through) dispatch to the builders?
+		dispatches := false
+		ast.Inspect(f.Decl.Body, func(n ast.Node) bool {
+			if call, ok := n.(*ast.CallExpr); ok {
+				if g := core.Callee(info, call); g != nil && g.Pkg() == tp.Types {
+					if g.Name() == "Build" && g.Type().(*types.Signature).Recv() != nil {
+						dispatches = true
+					}
+					if d := declOfFunc(c.P, g); d != nil && d.Decl.Body != nil && g.Name() != f.Decl.Name.Name {
+						n := 0
+						ast.Inspect(d.Decl.Body, func(m ast.Node) bool {
+							if c2, ok := m.(*ast.CallExpr); ok {
+								if h := core.Callee(info, c2); h != nil && h.Name() == "Build" && h.Pkg() == tp.Types {
+									n++
+								}
+							}
+							return true
+						})
+						if n >= 10 {
+							dispatches = true
+						}
+					}
+				}
+			}
+			return true
+		})
+		if !dispatches {
+			continue
+		}
+		excluded := map[string]bool{}
+		ast.Inspect(f.Decl.Body, func(n ast.Node) bool {
+			if ta, ok := n.(*ast.TypeAssertExpr); ok && ta.Type != nil {
+				if nt := core.NamedOf(info.TypeOf(ta.Type)); nt != nil && nt.Obj().Pkg() == pp.Types {
+					excluded[nt.Obj().Name()] = true
+				}
+			}
+			return true
+		})
+		ast.Inspect(f.Decl.Body, func(n ast.Node) bool {
+			call, ok := n.(*ast.CallExpr)
+			if !ok || len(call.Args) != 0 {
+				return true
+			}
+			g := core.Callee(info, call)
+			if g == nil || g.Pkg() != pp.Types {
+				return true
+			}
+			// the accessor's implementations in the pipeline package: `return n.<Flag>`
+			for _, pf := range core.AllFuncs(pp) {
+				if pf.Decl.Name.Name != g.Name() || pf.Decl.Recv == nil || pf.Decl.Body == nil {
+					continue
+				}
+				body := an.Effective(pf.Decl.Body.List)
+				if len(body) != 1 {
+					continue
+				}
+				ret, ok := body[0].(*ast.ReturnStmt)
+				if !ok || len(ret.Results) != 1 {
+					continue
+				}
+				if sel, ok := ast.Unparen(ret.Results[0]).(*ast.SelectorExpr); ok {
+					if sl := pp.TypesInfo.Selections[sel]; sl != nil && sl.Kind() == types.FieldVal {
+						if v, ok := sl.Obj().(*types.Var); ok {
+							central[v] = excluded
+						}
+					}
+				}
+			}
+			return true
+		})
+	}
 	nFlags := 0
 	for _, f := range core.AllFuncs(tp) {
 		if f.Decl.Name.Name != "Build" || f.Decl.Recv == nil || f.Decl.Body == nil {
@@ -1135,6 +1214,10 @@ func c13Build(c *core.Ctx, tp, pp *packages.Package) {
 		collect(st, 0)
 		for _, fl := range fields {
 			nFlags++
+			if ex, ok := central[fl]; ok && !ex[node.Obj().Name()] {
+				c.Ok("C13.flags", core.RecvName(f.Decl)+"."+fl.Name(), "rendered for all node types by the dispatcher")
+				continue
+			}
 			c.Check(read[fl], "C13.flags", core.RecvName(f.Decl)+"."+fl.Name(), f.Decl.Pos(), "the builder of %s never reads %s: a script that sets this flag is rendered without it (the property's arguments, if any, do not tell whether the flag was set)", node.Obj().Name(), fl.Name())
 		}
 	}
